@@ -3,6 +3,7 @@ package main
 // C19: core builtins and bundled package tables agree with their Go counterparts.
 
 import (
+	"math/big"
 	"net"
 	"encoding/json"
 	"fmt"
@@ -357,8 +358,29 @@ func c19HostValues() map[string]interface{} {
 		"hv_str": c19Str("named"), "hv_stringer": c19Stringer(7), "hv_dur": 1500 * time.Millisecond, "hv_err": fmt.Errorf("an error"), "hv_i8": int8(-5),
 		"hv_u16": uint16(500), "hv_f32": float32(0.5), "hv_ints": []int64{1, 2}, "hv_strs": []string{"a", "b"}, "hv_map": map[string]int64{"k": 1}, "hv_ptr": new(int64),
 		"hv_runes": []rune("hé"), "hv_nilbytes": []byte(nil), "hv_empty": []byte{},
+		// values for which fmt does more than call String() / Error(): typed nil receivers, fmt.Formatter, reflect.Value
+		"hv_nilstringer": (*c19PtrStr)(nil), "hv_nilerr": error((*c19PtrErr)(nil)), "hv_formatter": c19Fmt(3), "hv_reflect": reflect.ValueOf(int64(5)),
+		"hv_bigfloat": big.NewFloat(1.0 / 3), "hv_bigint": big.NewInt(1 << 40), "hv_ptrstringer": &c19PtrStr{"p"}, "hv_gostringer": c19GoStr(2),
 	}
 }
+
+type c19PtrStr struct{ s string }
+
+func (p *c19PtrStr) String() string { return "ptr:" + p.s } // dereferences the receiver
+
+type c19PtrErr struct{ s string }
+
+func (p *c19PtrErr) Error() string { return "err:" + p.s }
+
+// c19Fmt formats itself; its String method says something else
+type c19Fmt int
+
+func (f c19Fmt) Format(st fmt.State, verb rune) { fmt.Fprintf(st, "formatted<%d>", int(f)) }
+func (f c19Fmt) String() string                 { return "stringer" }
+
+type c19GoStr int
+
+func (g c19GoStr) GoString() string { return "gostring" }
 
 type litVal struct {
 	src string
